@@ -38,6 +38,10 @@ def peers(tier):
         'ssh1': dict(ssh1={'cmask': 0x4c, 'amask': 0x2c}, banner=b'SSH-1.5-OpenSSH_3.4', versions_differ=True),
         'header': dict(kex=['curve25519-sha256'], key=['ssh-ed25519'], enc=['aes256-ctr'], mac=['hmac-sha2-256'], banner=b'SSH-2.0-OpenSSH_9.6 comment', pre_banner=[b'Welcome', b'to this host']),
         'cert': dict(kex=['curve25519-sha256'], key=['ssh-rsa-cert-v01@openssh.com', 'ssh-ed25519'], enc=['aes256-ctr'], mac=['hmac-sha2-256'], banner=b'SSH-2.0-OpenSSH_9.6', rsa_bits=2048, ca='rsa', ca_bits=1024),
+        'cert-sha2-warn': dict(kex=['curve25519-sha256'], key=['rsa-sha2-512-cert-v01@openssh.com', 'rsa-sha2-256-cert-v01@openssh.com'], enc=['aes256-ctr'], mac=['hmac-sha2-256'],
+                               banner=b'SSH-2.0-OpenSSH_8.0', rsa_bits=2048, ca='rsa', ca_bits=4096),
+        'cert-sha2-ca-warn': dict(kex=['curve25519-sha256'], key=['rsa-sha2-256-cert-v01@openssh.com', 'ssh-ed25519-cert-v01@openssh.com'], enc=['aes256-ctr'], mac=['hmac-sha2-256'],
+                                  banner=b'SSH-2.0-OpenSSH_9.6', rsa_bits=4096, ca='rsa', ca_bits=2048),
         'compress': dict(kex=['curve25519-sha256'], key=['ssh-ed25519'], enc=['aes256-ctr'], mac=['hmac-sha2-256'], banner=b'SSH-2.0-OpenSSH_9.6', comp=['none', 'zlib@openssh.com']),
         'strict-kex-multi': dict(kex=['curve25519-sha256', 'kex-strict-s-v00@openssh.com'], key=['ssh-ed25519'],
                                  enc=['chacha20-poly1305@openssh.com', 'aes128-cbc', 'aes192-cbc', 'aes256-cbc', '3des-cbc', 'aes256-ctr'],
@@ -58,7 +62,7 @@ def peers(tier):
         'nonascii-banner': dict(kex=['curve25519-sha256'], key=['ssh-ed25519'], enc=['aes256-ctr'], mac=['hmac-sha2-256'], banner=b'SSH-2.0-Frob\x80SSH'),
     }
     if tier == 'quick':
-        keep = ['clean', 'warn-only', 'fail-mixed', 'terrapin', 'unknown', 'gss', 'rsa2048', 'gex1024', 'ssh1', 'header', 'cert', 'nonascii-banner', 'strict-kex-multi', 'client-role', 'asym', 'asym-clean-s2c', 'probe-fault-rsa1024', 'probe-fault-rsa2048']
+        keep = ['clean', 'warn-only', 'fail-mixed', 'terrapin', 'unknown', 'gss', 'rsa2048', 'gex1024', 'ssh1', 'header', 'cert', 'nonascii-banner', 'strict-kex-multi', 'client-role', 'asym', 'asym-clean-s2c', 'probe-fault-rsa1024', 'probe-fault-rsa2048', 'cert-sha2-warn', 'cert-sha2-ca-warn']
         ps = {k: ps[k] for k in keep}
     else:
         # every severity mix of the database per category as extra peers
